@@ -9,6 +9,7 @@ import (
 	"io"
 	"os"
 	"os/exec"
+	"runtime/debug"
 	"runtime"
 	"sync"
 	"time"
@@ -45,6 +46,7 @@ func readFrame(r io.Reader) ([]byte, error) {
 
 // Serve is the worker side: read jobs from stdin, answer on stdout.
 func Serve(handle func(job []byte) []byte) {
+	debug.SetPanicOnFault(true)
 	in := bufio.NewReaderSize(os.Stdin, 1<<20)
 	out := bufio.NewWriterSize(os.Stdout, 1<<20)
 	for {
